@@ -159,6 +159,7 @@ JobEndClauses(o, a, c, hh) ==
   \cup (IF kind = "CreateBranch" /\ ~ faulted /\ ~ CreateOk(b, o, a, hh.inclBegin)
         THEN {"C20.create"} ELSE {})
   \cup (IF kind = "DeleteBranch" /\ ~ faulted /\ ~ DeleteOk(b, o) THEN {"C20.delete"} ELSE {})
+  \cup (IF kind = "DeleteBranch" /\ ~ faulted /\ ~ DeleteRefusalJustified(b, o) THEN {"C20.delete.overrefuse"} ELSE {})
   \cup (IF kind \in {"DeleteQueues", "RebuildQueues"} /\ ~ OnlyQueuesChanged(b, o)
         THEN {"C20.queues.scope"} ELSE {})
   \cup (IF kind = "RebuildQueues" /\ ~ faulted /\ ~ hh.faultSeen /\ st = "JobSuccess" /\ ~ RebuildResubmits(b, o, a)
